@@ -101,7 +101,7 @@ def check_response(role: str, e: t.Any) -> t.Optional[t.Tuple[str, str]]:
     try:
         v = R.decode_message(resp, strict=True)
     except ber.BerError as x:
-        return (f"response-malformed:{role}", f"ProtocolError.response {resp.hex()[:60]} is not well-formed RFC 4511: {x}")
+        return (f"response-malformed:{role}:{resp.hex() if len(resp) <= 12 else K.exc_key(x)}", f"ProtocolError.response {resp.hex()[:60]} is not well-formed RFC 4511: {x}")
     op = v["protocolOp"]
     if role == "server":
         if not (op[0] == "extendedResp" and v["messageID"] == 0 and op[1]["responseName"] == R.NOTICE_OID):
@@ -141,26 +141,31 @@ def check_closed(role: str, s: t.Any) -> t.Optional[t.Tuple[str, str]]:
     return None
 
 
-def feed(role: str, state: str, chunks: t.Sequence[bytes], deep: bool) -> t.Tuple[t.Optional[t.Tuple[str, str]], str]:
-    """Deliver chunks in order.  -> (violation or None, outcome class)."""
+def feed(role: str, state: str, chunks: t.Sequence[bytes], deep: bool) -> t.Tuple[t.List[t.Tuple[str, str]], str]:
+    """Deliver chunks in order.  -> (violations, outcome class)."""
     s = make_session(role, state)
     nmsg = 0
     for ch in chunks:
         try:
             r = s.receive(ch)
         except L.ProtocolError as e:
+            vs = []
             v = check_response(role, e)
-            if v is None and s.state is not S.CLOSED:
-                v = (f"not-closed-after-error:{role}", f"state is {s.state.name} after ProtocolError: {e}")
-            if v is None and deep:
+            if v:
+                vs.append(v)
+            if s.state is not S.CLOSED:
+                vs.append((f"not-closed-after-error:{role}", f"state is {s.state.name} after ProtocolError: {e}"))
+            elif deep:
                 v = check_closed(role, s)
-            return v, "error:" + K.exc_key(e)[:40]
+                if v:
+                    vs.append(v)
+            return vs, "error:" + K.exc_key(e)[:40]
         except BaseException as e:  # noqa: BLE001
-            return (f"receive-raises:{type(e).__name__}", f"{role}.receive raised {type(e).__name__}: {e}"), "foreign"
+            return [(f"receive-raises:{type(e).__name__}", f"{role}.receive raised {type(e).__name__}: {e}")], "foreign"
         if type(r) is not list:
-            return ("receive-returns-non-list", f"receive returned {type(r).__name__}"), "foreign"
+            return [("receive-returns-non-list", f"receive returned {type(r).__name__}")], "foreign"
         nmsg += len(r)
-    return None, f"ok:{nmsg}"
+    return [], f"ok:{nmsg}"
 
 
 def chunkings(data: bytes, mode: str) -> t.Iterator[t.Tuple[str, t.List[bytes]]]:
@@ -180,9 +185,9 @@ def _run_input(loc: evid.Local, data: bytes, fam: str, roles: t.Sequence[str], s
         for state in states:
             for cname, chunks in chunkings(data, mode):
                 loc.add("transitions", len(chunks))
-                v, outcome = feed(role, state, chunks, deep)
+                vs, outcome = feed(role, state, chunks, deep)
                 loc.distinct.add((fam, role, state, outcome if not outcome.startswith("error") else outcome[:30]))
-                if v:
+                for v in vs:
                     loc.violation(v[0], v[1] + f"  [input {data.hex()[:80]}{'..' if len(data) > 40 else ''}, {role}/{state}/{cname}]", {"role": role, "state": state, "chunks": [c.hex() for c in chunks] if len(chunks) < 80 else None, "data": data.hex() if len(data) < 4000 else None, "gen": desc, "chunking": cname})
     loc.add("states")
 
@@ -325,8 +330,9 @@ def replay(case: t.Dict[str, t.Any], key: t.Optional[str] = None) -> t.Tuple[boo
         g = case["gen"]
         data = nested_search(g["tag"], g["depth"], g["form"])
         chunks = [data] if case.get("chunking") == "whole" else [data[i : i + 1] for i in range(len(data))]
-    v, outcome = feed(case["role"], case["state"], chunks, True)
+    vs, outcome = feed(case["role"], case["state"], chunks, True)
+    vs = [v for v in vs if key is None or v[0] == key]
     txt = f"{case['role']} in state {case['state']}, {len(chunks)} chunk(s), {sum(map(len, chunks))} bytes -> {outcome}"
-    if v:
-        return False, txt + f"\n  {v[0]}: {v[1]}"
+    if vs:
+        return False, txt + "".join(f"\n  {v[0]}: {v[1]}" for v in vs)
     return True, txt
